@@ -39,6 +39,7 @@ class TGen:
             if q < 0.2 and kind == 'S':
                 bt = rng.choice(['int', 'unsigned', 'signed char', 'unsigned long', '_Bool', 'short'])
                 w = 1 if bt == '_Bool' else rng.randint(1, {'int': 32, 'unsigned': 32, 'signed char': 8, 'unsigned long': 64, 'short': 16}[bt])
+                if bt != '_Bool' and rng.random() < 0.25: w = {'int': 32, 'unsigned': 32, 'signed char': 8, 'unsigned long': 64, 'short': 16}[bt]      # as wide as its unit: the mask (1 << w) - 1 is a shift by the operand width
                 ms.append(('m%d_%d' % (me, j), ('s', bt), w))
                 # unnamed bit-fields (also zero-width, also a RUN of them) take no part in initialization (6.7.9p9): mn == ''
                 while ms and rng.random() < 0.3:
